@@ -39,7 +39,7 @@ func mkProfile(name string, lo, hi int, mult map[string]int) *profile {
 
 var (
 	profMixed = mkProfile("mixed", 30, 90, nil)
-	profC12   = mkProfile("C12", 40, 110, map[string]int{"st.commit": 2, "i.write": 3, "i.challenge": 3, "i.late": 3, "st.gen_chal": 2, "st.chal_resp": 2, "st.update_alloc": 2, "i.killreplace": 2, "st.read": 0, "st.free_alloc": 0, "i.reads": 0, "i.free": 0})
+	profC12   = mkProfile("C12", 40, 110, map[string]int{"i.drain": 8, "st.commit": 2, "i.write": 3, "i.challenge": 3, "i.late": 3, "st.gen_chal": 2, "st.chal_resp": 2, "st.update_alloc": 2, "i.killreplace": 2, "st.read": 0, "st.free_alloc": 0, "i.reads": 0, "i.free": 0})
 	profC13   = mkProfile("C13", 40, 110, map[string]int{"st.new_alloc": 2, "st.update_alloc": 3, "st.kill": 3, "i.killreplace": 4, "st.update_blobber": 3, "i.expire": 2, "st.read": 0, "i.reads": 0, "st.stake": 2, "st.unstake": 2})
 	profC14   = mkProfile("C14", 40, 110, map[string]int{"st.finalize": 3, "st.cancel": 3, "i.expire": 4, "i.postclose": 4, "st.wp_lock": 2, "i.write": 2, "i.challenge": 2, "st.read": 0, "i.reads": 0, "st.kill": 2})
 	profC15   = mkProfile("C15", 40, 110, map[string]int{"st.read": 6, "i.reads": 6, "i.reads_ts": 10, "st.rp_lock": 3, "st.rp_unlock": 2, "st.commit": 0, "i.write": 0, "i.challenge": 0, "i.late": 0, "st.gen_chal": 0, "st.chal_resp": 0, "st.free_alloc": 0, "i.free": 0, "i.killreplace": 0})
@@ -152,6 +152,31 @@ func expand(r *sim.RNG, op string, mccr int) []sim.Step {
 			s := genStep(r, "st.commit")
 			s = withI(withI(withI(s, 0, a), 1, 0), 2, int64(i))
 			out = append(out, s)
+		}
+		return out
+	case "i.drain":
+		// an exactly funded allocation is partly written, time passes, the owner extends it without locking anything
+		// (write pool + challenge pool still cover the cost, but the extension moves the price of the added time for
+		// the stored data into the challenge pool), then every blobber is filled: the last uploads cost more than
+		// what is left in the write pool. Deletes afterwards move tokens back.
+		data, parity := ri(r, 2), int64(r.Intn(2))
+		nb := int(data+1) + int(parity+1)
+		c := r.Intn(8)
+		out := []sim.Step{{Op: "st.new_alloc", A: c, I: []int64{data, parity, 1, ri(r, 8), 0, 2, 0, 0, 0}}}
+		first := []int64{9, 9, 1, 0}[r.Intn(4)]
+		for i := 0; i < nb; i++ {
+			out = append(out, sim.Step{Op: "st.commit", I: []int64{0, 2, int64(i), first, 0, int64(r.Intn(2))}})
+		}
+		if r.Intn(3) == 0 {
+			out = append(out, genStep(r, "block"))
+		}
+		out = append(out, sim.Step{Op: "st.clock_to", I: []int64{0, 2, 0, int64(1 + r.Intn(6))}}, sim.Step{Op: "st.health_all"})
+		out = append(out, sim.Step{Op: "st.update_alloc", A: 0, I: []int64{0, 2, 0, 1, -1, -1, 0, 0, -1}})
+		for i := 0; i < nb; i++ {
+			out = append(out, sim.Step{Op: "st.commit", I: []int64{0, 2, int64(i), 2, 0, int64(r.Intn(2))}})
+		}
+		for i := 0; i < 1+r.Intn(2); i++ {
+			out = append(out, sim.Step{Op: "st.commit", I: []int64{0, 2, int64(nb - 1 - i), []int64{4, 5}[r.Intn(2)], 0, int64(r.Intn(2))}})
 		}
 		return out
 	case "i.challenge":
